@@ -72,6 +72,22 @@ func argListAlts(args []Arg, allowNewlines bool) []string {
 		"( " + strings.Join(t, " ,") + " , )",
 	}
 	if allowNewlines {
+		if args[len(args)-1].Ident {
+			// a name may be the last thing on its line (the scanner skips whitespace after
+			// an identifier before it looks for ')' or ','); a string may not
+			out = append(out,
+				"(\n    "+strings.Join(t, ",\n    ")+"\n)",
+				"(\r\n    "+strings.Join(t, ",\r\n    ")+"\r\n)",
+				"("+strings.Join(t, ", ")+"\n)",
+			)
+		}
+		allIdent := true
+		for _, a := range args {
+			allIdent = allIdent && a.Ident
+		}
+		if allIdent && len(args) > 1 {
+			out = append(out, "("+strings.Join(t, "\n, ")+")")
+		}
 		out = append(out,
 			"(\n    "+strings.Join(t, ",\n    ")+",\n)",
 			"(\n"+strings.Join(t, ",\n")+",\n)",
@@ -108,7 +124,7 @@ func (s Stmt) pieces(last bool) []piece {
 		p = append(p, eol())
 	case KTask:
 		if s.HasDoc {
-			p = append(p, indent, lit("#"+s.Doc), piece{Alts: []string{"\n", "\r\n"}})
+			p = append(p, indent, lit("#"+s.Doc), piece{Alts: []string{"\n", "\r\n", "\n\n", "\n  \n", "\r\n\r\n"}})
 		}
 		p = append(p, indent, lit("task"), piece{Alts: []string{" ", "  ", "\t"}}, lit(s.Name),
 			piece{Alts: []string{"", " ", "  "}}, piece{Alts: argListAlts(s.Deps, true)})
@@ -119,6 +135,10 @@ func (s Stmt) pieces(last bool) []piece {
 			o := argText(s.Outs[0])
 			p = append(p, piece{Alts: []string{" -> " + o, "->" + o, "  ->  " + o, " ->" + o, "-> " + o, "\t->\t" + o,
 				" -> (" + o + ")", " -> ( " + o + " )", " -> (" + o + ",)", " -> (\n    " + o + ",\n)", "->(" + o + ")"}})
+			if s.Outs[0].Ident {
+				last := &p[len(p)-1]
+				last.Alts = append(last.Alts, " -> (\n    "+o+"\n)")
+			}
 		default:
 			la := argListAlts(s.Outs, true)
 			alts := make([]string, 0, len(la)+3)
